@@ -126,6 +126,7 @@ def check(case):
     if not probs and nguard_cells == expected_guards:
         up = geometric_up_neighbours(nc)
         bad = None
+        ambiguous = [0]
         for y in range(t["ny"]):
             yf = bm.file_y(t, y)
             for x in range(nx):
@@ -141,8 +142,19 @@ def check(case):
                         ok = False
                 else:
                     ok = geo_b == [model]
+                    if not ok and model in geo_b:
+                        # a cell shorter than the coincidence tolerance (the 'monotonic' spacing can
+                        # produce 1e-10 m cells next to an X-point) has its lower and upper edge in the
+                        # same place: the geometry then offers several neighbours, the model's among them
+                        hyd = nc["hy"] * nc["dy"]
+                        tiny = [g for g in geo if float(hyd[x, g]) < 10 * ATOL or float(hyd[x, yf]) < 10 * ATOL]
+                        if tiny:
+                            ok = True
+                            ambiguous[0] += 1
                 if not ok and bad is None:
                     bad = {"x": x, "y": y, "model_up": model, "geometric_up": geo_b}
+        if ambiguous[0]:
+            hist.append("adjacency-y/ambiguous-by-degenerate-cells")
         if bad is not None:
             fail("C08/adjacency-y/%s" % topo, dict(bad, indices={k: t[k] for k in t}), {"topology": topo})
         # x adjacency
